@@ -61,7 +61,7 @@ def run_shards(prop, tier, seed, nshards, workdir):
 def merge(results):
     m = dict(evaluations=0, nontrivial=0, classes=set(), features=collections.Counter(),
              streams=collections.Counter(), samples=[], violations=[], timeouts=0,
-             rejected=collections.Counter(), counters=collections.Counter(), errors=[],
+             rejected=collections.Counter(), counters=collections.Counter(), errors=[], generator_errors=[],
              violation_counts=collections.Counter(), linecov={})
     for r in results:
         m['evaluations'] += r['evaluations']
@@ -69,6 +69,7 @@ def merge(results):
         m['classes'].update(r['classes'])
         m['timeouts'] += r['timeouts']
         m['errors'] += r['errors']
+        m['generator_errors'] += r.get('generator_errors', [])
         m['violations'] += r['violations']
         if len(m['samples']) < 6:
             m['samples'] += r['samples'][:2]
@@ -170,6 +171,7 @@ def run_check(prop, tier, seed):
                streams=dict(merged['streams']), expected_rejections=dict(merged['rejected']),
                monitor_counters=dict(merged['counters']), mechanism_lines=lc, known_findings=known_report,
                case_timeouts=merged['timeouts'], shards=nshards,
+               harness_generator_restarts=[e[-600:] for e in merged['generator_errors'][:3]],
                verdict='violated' if new else ('inconclusive' if inconclusive else 'held on what was observed'),
                inconclusive_reasons=inconclusive, repo=env.REPO)
     ev = dict(property_id=prop, tier=tier, seed=seed, level=mon.LEVEL, coverage=cov,
